@@ -766,20 +766,23 @@ DN(n, c) == [n |-> n, v |-> <<>>, at |-> <<>>, c |-> c]
 DL(n, val) == [n |-> n, v |-> <<val>>, at |-> <<>>, c |-> <<>>]
 DA(n, at, val) == [n |-> n, v |-> <<val>>, at |-> at, c |-> <<>>]
 DNamed(n, name, c) == DN(n, <<DL("SHORT-NAME", SVal(name))>> \o c)
+DX(n, at, c) == [n |-> n, v |-> <<>>, at |-> at, c |-> c]
 \* flatten in document order: sequence of [n, v, at, par (position of the parent in the sequence, 0 for the root)]
 RECURSIVE Flatten(_, _, _)
 RECURSIVE FlattenList(_, _, _)
 Flatten(d, par, acc) == FlattenList(d.c, Len(acc) + 1, Append(acc, [n |-> d.n, v |-> d.v, at |-> d.at, par |-> par]))
 FlattenList(ds, par, acc) == IF ds = <<>> THEN acc ELSE FlattenList(Tail(ds), par, Flatten(Head(ds), par, acc))
 \* kinds of the flattened nodes (find_sub_element of the parent's type in the file's version); "" if the name is not allowed there
-RECURSIVE DocKinds(_, _, _)
-DocKinds(F, v, acc) ==
+\* (a lenient load also accepts a sub element that exists in another version only)
+RECURSIVE DocKinds(_, _, _, _)
+DocKinds(F, v, len, acc) ==
   IF Len(acc) = Len(F) THEN acc
   ELSE LET j == Len(acc) + 1 IN
-       IF F[j].par = 0 THEN DocKinds(F, v, Append(acc, "AUTOSAR"))
+       IF F[j].par = 0 THEN DocKinds(F, v, len, Append(acc, "AUTOSAR"))
        ELSE LET pk == acc[F[j].par]
-                ci == IF pk = "" THEN 0 ELSE ChildIx(pk, F[j].n, v) IN
-            DocKinds(F, v, Append(acc, IF ci = 0 THEN "" ELSE KChildren(pk)[ci].kind))
+                c0 == IF pk = "" THEN 0 ELSE ChildIx(pk, F[j].n, v)
+                ci == IF c0 = 0 /\ pk # "" /\ len THEN ChildIxAny(pk, F[j].n) ELSE c0 IN
+            DocKinds(F, v, len, Append(acc, IF ci = 0 THEN "" ELSE KChildren(pk)[ci].kind))
 \* the parsed tree as nodes base+1 .. base+Len(F), not attached to anything (the root's parent link is set by the caller)
 ParsedNodes(F, K, base) ==
   [j \in 1..Len(F) |->
@@ -887,6 +890,7 @@ PkgA(c) == DNamed("AR-PACKAGE", "a", c)
 Els(c) == DN("ELEMENTS", c)
 Sys(n) == DNamed("SYSTEM-SIGNAL", n, <<>>)
 ISigRef(n, target) == DNamed("I-SIGNAL", n, <<DA("SYSTEM-SIGNAL-REF", <<[n |-> "DEST", v |-> EVal("SYSTEM-SIGNAL")]>>, PVal(target))>>)
+DescX(n) == DN("DESC", <<DX("L-2", <<[n |-> "L", v |-> EVal("EN")]>>, <<DNamed("XREF-TARGET", n, <<>>)>>)>>)
 DocOf(ver, pkgs) == [ver |-> ver, root |-> DN("AUTOSAR", <<DN("AR-PACKAGES", pkgs)>>)]
 LoadDocs ==
   [pb |-> DocOf("V50", <<PkgA(<<>>), DNamed("AR-PACKAGE", "b", <<>>)>>),
@@ -894,7 +898,16 @@ LoadDocs ==
    pr |-> DocOf("V50", <<PkgA(<<Els(<<ISigRef("j", <<"a", "t">>), Sys("t")>>)>>)>>),
    pn |-> DocOf("V50", <<DNamed("AR-PACKAGE", "c", <<>>), PkgA(<<DN("AR-PACKAGES", <<DNamed("AR-PACKAGE", "p", <<Els(<<Sys("u")>>)>>)>>)>>)>>),
    po |-> DocOf("V401", <<PkgA(<<Els(<<Sys("o")>>)>>)>>),
+   \* a child that the oldest version does not know, contributed by a newer file
+   pf |-> DocOf("V50", <<PkgA(<<DN("SHORT-NAME-FRAGMENTS", <<>>)>>)>>),
    px |-> DocOf("V50", <<PkgA(<<Els(<<DNamed("I-SIGNAL", "s", <<>>)>>)>>)>>),
+   \* two files that diverge below a non-splittable element (differently named XREF-TARGETs in one L-2); cf also brings a new package
+   cd |-> DocOf("V50", <<PkgA(<<DescX("x")>>), DNamed("AR-PACKAGE", "b", <<>>)>>),
+   cf |-> DocOf("V50", <<DNamed("AR-PACKAGE", "z", <<>>), PkgA(<<DescX("y")>>)>>),
+   \* one path defined as two kinds of elements inside one file
+   dupk |-> DocOf("V50", <<PkgA(<<Els(<<Sys("s"), DNamed("I-SIGNAL", "s", <<>>)>>)>>)>>),
+   \* an element that the file's own version does not have (accepted by a lenient load only), next to other children
+   pv |-> DocOf("V401", <<PkgA(<<DN("SHORT-NAME-FRAGMENTS", <<>>), Els(<<Sys("v")>>)>>)>>),
    \* the documents of the random driver
    ok_a |-> DocOf("V50", <<PkgA(<<Els(<<Sys("s"), ISigRef("i", <<"a", "s">>)>>)>>)>>),
    ok_b |-> DocOf("V50", <<DNamed("AR-PACKAGE", "b", <<Els(<<Sys("t")>>)>>), PkgA(<<Els(<<ISigRef("j", <<"a", "s">>)>>)>>)>>),
@@ -910,12 +923,15 @@ RegisterIdents(s, m, ids) ==
 RECURSIVE RegisterRefs(_, _, _)
 RegisterRefs(s, m, ids) == IF ids = <<>> THEN s ELSE RegisterRefs(AddRefo(s, m, CData(s, Head(ids)).v, Head(ids)), m, Tail(ids))
 
-Load(s, m, dname, fname) ==
+Load(s, m, dname, fname, len) ==
   IF \E j \in 1..Len(s.files[m]) : s.f[s.files[m][j]].name = fname THEN {Fail(s, "DuplicateFilenameError")}
   ELSE
   LET doc == LoadDocs[dname]
       F == Flatten(doc.root, 0, <<>>)
-      K == DocKinds(F, doc.ver, <<>>)
+      K == DocKinds(F, doc.ver, len, <<>>) IN
+  \* an element that the file's version does not have is an error of a strict load
+  IF \E j \in 1..Len(K) : K[j] = "" THEN {Fail(s, "ParserError")}
+  ELSE LET
       base == Len(s.n)
       rb == base + 1
       fid == Len(s.f) + 1
@@ -924,7 +940,9 @@ Load(s, m, dname, fname) ==
       new == [j \in 1..Len(F) |-> base + j]
       idents == SelectSeq(new, LAMBDA i : IsIdent(sp, i) /\ ItemName(sp, i) # <<>>)
       refs == SelectSeq(new, LAMBDA i : KIsRef(Kind(sp, i)) /\ HasRefData(sp, i))
-      clash == \E j \in 1..Len(idents) : LET o == Lookup(s, m, ApiPath(sp, idents[j]).v) IN o # 0 /\ NameOf(s, o) # NameOf(sp, idents[j])
+      \* a path of the new data that the model has as another kind of element, or that the new data itself defines as two kinds
+      clash == \/ \E j \in 1..Len(idents) : LET o == Lookup(s, m, ApiPath(sp, idents[j]).v) IN o # 0 /\ NameOf(s, o) # NameOf(sp, idents[j])
+               \/ \E i, j \in 1..Len(idents) : i < j /\ ApiPath(sp, idents[i]).v = ApiPath(sp, idents[j]).v /\ NameOf(sp, idents[i]) # NameOf(sp, idents[j])
   IN
   IF clash THEN {Fail(s, "OverlappingDataError")}
   ELSE
@@ -936,7 +954,9 @@ Load(s, m, dname, fname) ==
         ELSE LET r == MergeEl([s1 EXCEPT !.n[rb].par = PX], s.root[m], rb, SeqToSet(s.files[m]), fid, doc.ver) IN
              IF ~r.ok THEN r ELSE [ok |-> TRUE, s |-> SetF(r.s, s.root[m], "fm", r.s.n[s.root[m]].fm \cup {fid})]
   IN
-  IF ~merged.ok THEN {}      \* (InvalidFileMerge leaves a partially merged model behind: not described here; no catalogue document leads to it)
+  \* files that diverge below a non-splittable element are rejected; the rejected load has no effect (what was merged up to
+  \* that point is taken out again)
+  IF ~merged.ok THEN {Fail(s, "InvalidFileMerge")}
   ELSE LET alive == SeqToSet(Dfs(merged.s, merged.s.root[m]))
            s2 == RegisterIdents(merged.s, m, SelectSeq(idents, LAMBDA i : i \in alive))
            s3 == RegisterRefs(s2, m, SelectSeq(refs, LAMBDA i : i \in alive))
@@ -980,7 +1000,7 @@ Do(s, a) ==
     [] a.op = "AddToFile"      -> AddToFile(s, a.p, a.f)
     [] a.op = "RemoveFromFile" -> RemoveFromFile(s, a.p, a.f)
     [] a.op = "Duplicate"      -> Duplicate(s, a.m)
-    [] a.op = "Load"           -> Load(s, a.m, a.k, a.name)
+    [] a.op = "Load"           -> Load(s, a.m, a.k, a.name, a.ver = "lenient")
 
 \* the empty universe: NM models without files
 EmptyState(NM) ==
